@@ -491,7 +491,19 @@ def run_eval_configs(ctx, programs):
 
 
 def run_dap(ctx, cases, tag="dap"):
-    rc, log, res = sv.run_harness_sharded(ctx, "dap", cases, timeout=900)
+    """Sessions that made no progress are repeated once, one at a time and with a two-minute allowance, before they count as
+    a hang: on an overloaded machine the evaluation thread of a parallel shard may simply not get scheduled."""
+    for c in cases:
+        c.setdefault("timeout_ms", 30000)
+    rc, log, res = sv.run_harness_sharded(ctx, "dap", cases, timeout=1500)
+    again = [i for i, r in enumerate(res) if r is None or r.get("hang") or r.get("lost")]
+    if again:
+        ctx.log("repeating %d debugger session(s) that made no progress, serially" % len(again))
+        rc2, log2, res2 = sv.run_harness(ctx, "dap", [dict(cases[i], timeout_ms=120000) for i in again], tag=tag + "_retry", timeout=1500)
+        for i, r in zip(again, res2):
+            res[i] = r
+        if rc != 0 and rc2 == 0 and all(r is not None for r in res):
+            rc = 0
     return res, rc, log
 
 
@@ -622,7 +634,7 @@ def check_programs(ctx, programs, want_model=True):
         bps = c["bps"]
         if bps == "first":
             bps = [evs[0][0]] if evs else []
-        job = {"src": programs[i]["src"], "bps": bps, "policy": c["policy"], "evals": c.get("evals", []), "timeout_ms": 20000,
+        job = {"src": programs[i]["src"], "bps": bps, "policy": c["policy"], "evals": c.get("evals", []),
                "vars": c["policy"] == ["continue"] or c["name"] == "script"}
         jobs.append(job)
         meta.append((i, c["name"], bps, c["policy"]))
@@ -663,7 +675,7 @@ def check_programs(ctx, programs, want_model=True):
                 fail("impl-crash:dap-" + name, "%s: debugger session %s crashed: %s" % (p["id"], name, str(r)[:300]), dict(rep, impl=r))
                 continue
             if r.get("hang"):
-                fail("hang:dap-" + name, "%s: debugger session %s made no progress for 20 s after %d stops (deadlock)" % (p["id"], name, len(r.get("stops", []))),
+                fail("hang:dap-" + name, "%s: debugger session %s made no progress for two minutes after %d stops, also when repeated alone (deadlock)" % (p["id"], name, len(r.get("stops", []))),
                      dict(rep, stops=r.get("stops", [])[-5:]))
                 continue
             got = (r.get("tr"), norm_out(r.get("out")))
@@ -713,11 +725,12 @@ def check_programs(ctx, programs, want_model=True):
             # ---- breakpoints continuing: exactly once per execution, with the program's own values
             if pol == ["continue"] and not r.get("capped"):
                 check_marker_stops(p, name, bps, stops, b0, rep, fail, st)
-        if cfgs_for_coq and len(evs0) <= 1500:
+        if cfgs_for_coq and len(evs0) <= ctx.n(400, 1500):
             dbg_jobs.append((evs0, [(b, pl) for b, pl, _, _ in cfgs_for_coq]))
             dbg_meta.append((i, cfgs_for_coq))
     # ---- the Coq model: traces of MarkStar programs, decision function on the real traces
-    mprogs = [(i, p) for i, p in enumerate(programs) if p.get("coq") and base[i] is not None and rec[i] is not None] if want_model else []
+    mprogs = [(i, p) for i, p in enumerate(programs) if p.get("coq") and base[i] is not None and rec[i] is not None
+              and not rec[i].get("hang") and "panic" not in rec[i]] if want_model else []
     mres, dres, mlog = run_model(ctx, [p for _, p in mprogs], dbg_jobs)
     ctx.log("Coq model evaluated (%d programs, %d decision jobs)" % (len(mprogs), len(dbg_jobs)))
     for (i, p), v in zip(mprogs, mres):
